@@ -530,7 +530,10 @@ class Walker:
             elif isinstance(s, ast.Return):
                 q = self.q(s.value)
                 if q != TOP:
-                    self.A.retq[self.name] = q
+                    old_q = self.A.retq.get(self.name)
+                    # `return x + loss padding` on one path and `return x` on the loss-free path: the padded space stands for both
+                    if not (isinstance(old_q, tuple) and len(old_q) == 3 and old_q[1] == "PAD" and isinstance(q, tuple) and len(q) == 3 and q[0] == old_q[0] and q[1] == "FULL"):
+                        self.A.retq[self.name] = q
                 self.returns.append((s, q if isinstance(q, tuple) and len(q) == 3 and not isinstance(q[0], tuple) else TOP))
             elif isinstance(s, ast.Expr):
                 self.q(s.value)
